@@ -97,6 +97,36 @@ CHECKS = {
         "the lean value sets (8k states), thorough the rich ones (730k states).",
    technique="TLA+ spec of cross-revision reads checked by TLC; every state replayed through serialize/deserialize of both revisions",
    design="4 C14"),
+ "C09": dict(
+   text="TLC checks on Reader.tla (implementation-shaped recursive reader with the shrinking lookup list, per-object cache, "
+        "sorted target loop) that a resolved reference names exactly the definition and version asked for, that missing / "
+        "self / cyclic / case-variant / ambiguous references never succeed, and the closure invariants, for every "
+        "configuration of the universe. Every configuration is materialised in three directories and read; the file "
+        "identity of every nested type reachable through any referrer, or the error class / path / line, is compared.",
+   note="Configurations: <= 2 definitions with every reference kind and pairs of spellings (full), 3 definitions with "
+        "absolute references (graph shapes; sampled 1/8 in quick). Directories: target root a, lookup b, second lookup a'. "
+        "Versions use major 0 so the minor-version rules (C11) do not interfere.",
+   technique="TLA+ reader/resolver spec checked by TLC; every configuration materialised and read, links and errors compared",
+   design="4 C09"),
+ "C10": dict(
+   text="TLC checks on Namespaces.tla that the glob + set + sort pipeline yields one entry per file under the root, sorted by "
+        "(name, -major, -minor), for every enumeration order (OrderIndependent), and the directory-set rule over argument "
+        "lists; on Reader.tla (Entry files) that direct = targets and transitive = closure - targets for every target "
+        "subset. Every state is materialised and read; read_files is also compared with read_namespace's types; the same "
+        "namespace is re-read under several hash seeds and with reordered / duplicated / relative / symlinked arguments.",
+   note="Trees of <= 3 (quick) / 4 (thorough) files, depth 0-2, .dsdl/.uavcan; 7 resolved directories x 3 spellings, <= 2 "
+        "lookups. File-system enumeration order is explored on the specification only; hash seeds are forced (5 / 24).",
+   technique="TLA+ pipeline and directory rule checked by TLC; every state materialised; hash-seed subprocess comparison",
+   design="4 C10"),
+ "C19": dict(
+   text="TLC checks on Reader.tla that no definition outside Targets + Closure is ever parsed (NoLoadOutsideClosure) and that "
+        "replacing the body of such a definition leaves the whole outcome unchanged (OutsideIrrelevant), for read_namespace "
+        "and read_files with every target subset. Every configuration with an outside definition is read as is and with six "
+        "replacement texts; projections must be identical.",
+   note="Replacements: garbage, failing assertion, missing @sealed, @print, service instead of message, undefined reference. "
+        "Malformed file names in lookup directories are outside (inspected at listing time).",
+   technique="TLA+ closure invariants checked by TLC; paired runs of every configuration against the implementation",
+   design="4 C19"),
 }
 
 NOT_YET = "check not built yet in this round (see DESIGN.md section 9 build order)"
